@@ -193,7 +193,10 @@ class Impl:
       return "refused", False, False
     except Exception as e:  # pylint: disable=broad-except
       return "exc:%s" % type(e).__name__, False, False
-    return "ok", json.loads(json.dumps(rm2.get_quantization_recipe())) == json.loads(text), self.resolve(rm2) == self.resolve(rm)
+    # "resolves identically" includes the one resolution the Quantizer makes for the recipe as a whole: whether quantize() will
+    # demand a calibration result (the same model and the same calibration result must give the same outcome on both sides)
+    return ("ok", json.loads(json.dumps(rm2.get_quantization_recipe())) == json.loads(text),
+            self.resolve(rm2) == self.resolve(rm) and bool(rm2.need_calibration()) == bool(rm.need_calibration()))
 
 
 def parse_trans(r):
